@@ -167,3 +167,22 @@ package route
 //@   requires forall j int :: 0 <= j && j < len(route.in) ==> route.in[j] != nil && !closed(route.in[j])
 //@   modifies *
 //@   ensures[buf_kept; C04] buf[..] == old(buf[..])
+
+// ---------------------------------------------------------------- schemas.go: the record built for grafana.net / Kafka (C16)
+// graphiteKey: the series name as Graphite presents it: the bare name for an untagged series,
+// name;tag1;tag2 (tags sorted) for a tagged one
+//@ spec usableSchemas(s persister.WhisperSchemas) bool := (forall k int :: 0 <= k && k < len(s) ==> s[k].Pattern != nil && len(s[k].Retentions) >= 1 && s[k].Retentions[0] != nil)
+//@      && (exists k int :: 0 <= k && k < len(s) && s[k].Pattern.src == ".*")
+//@ func parseMetric(buf []byte, schemas persister.WhisperSchemas, orgId int) (md *schema.MetricData, err error)
+//@   property C16,C14
+//@   requires usableSchemas(schemas)
+//@   let line := btrim(buf[..])
+//@   let f0   := field(line, 0)
+//@   modifies *
+//@   ensures[three_fields; C16] nfields(line) != 3 ==> err != nil
+//@   ensures[datapoint; C16] err == nil ==> md != nil && md.Name == eatDots(bpart(f0, ";", 0)) && md.Value == parseFloat(field(line, 1)) && md.Time == parseUint(field(line, 2)) && md.OrgId == orgId
+//@   ensures[tags_sorted; C16] err == nil ==> len(md.Tags) == bcount(f0, ";") && (forall i int, j int :: 0 <= i && i <= j && j < len(md.Tags) ==> bleq(md.Tags[i], md.Tags[j]))
+//@   ensures[interval_of_first_matching_rule; C16] err == nil ==> (exists k int :: 0 <= k && k < len(schemas)
+//@        && reMatch(schemas[k].Pattern.src, (len(md.Tags) == 0 ? bpart(f0, ";", 0) : bpart(f0, ";", 0) ++ ";" ++ sjoin(rawarr(md.Tags), md.Tags.off, len(md.Tags), ";")))
+//@        && (forall j int :: 0 <= j && j < k ==> !reMatch(schemas[j].Pattern.src, (len(md.Tags) == 0 ? bpart(f0, ";", 0) : bpart(f0, ";", 0) ++ ";" ++ sjoin(rawarr(md.Tags), md.Tags.off, len(md.Tags), ";"))))
+//@        && md.Interval == schemas[k].Retentions[0].secondsPerPoint)
